@@ -60,4 +60,16 @@ theorem plist_to_side_replace_witness (o : Opts) (orc : Oracle) (d : Doc) (a : F
 -- non-vacuity / concreteness
 example : supported .yaml .json = true ∧ supported .plist .json5 = true ∧ supported .json .plist = false := by decide
 
+-- [audit] what the theorems above rest on: in the model the three non-plist loaders are THE SAME FUNCTION (`load`
+-- ignores the format; no parser is a parameter — a datum is one `Doc`), so `third_doc_independent` is `rfl`,
+-- `same_data_zero` is `C02.eq_zero_cost` + reflexivity of `Tree.eq`, and `plist_from_side` /
+-- `plist_to_side_replace_witness` restate the defining equations of `Formats.cost` (the `Replace` cost of D10 is
+-- written into the definition, not derived from a model of the `edits` dispatch on a `PLISTNode`).
+example (o : Opts) (d : Doc) : load o .json d = load o .json5 d ∧ load o .json d = load o .yaml d := ⟨rfl, rfl⟩
+example (o : Opts) (orc : Oracle) (d t : Doc) :
+    cost o orc (load o .json d) (load o .yaml t) = cost o orc (load o .yaml d) (load o .json5 t) := rfl
+example (o : Opts) (orc : Oracle) (a b : Tree) : cost o orc (.plain a) (.plist b) = Nat.max a.size b.size + 1 := rfl
+example (o : Opts) (orc : Oracle) (d t : Doc) :
+    cost o orc (load o .plist d) (load o .json t) = (edits o orc [0] [] (build o d) (build o t)).cost := rfl
+
 end GtModel.C09
